@@ -62,7 +62,7 @@ TEncodeOk ==
         /\ Ev.n = batchId                                                        \* batch ids count up from zero
         /\ pstreams' = st.streams /\ nextId' = st.next /\ ann' = st.ann /\ retiredIds' = st.ret
         /\ wire' = st.out /\ orig' = st.out /\ gapped' = g
-        /\ judged' = (Ids(st.out) \cap g = {})
+        /\ judged' = (\A x \in cstreams : x.id \in Ids(st.out) \cap g => x.st = "unopened")
         \* schema evolution is additive: the record builder of a signal never returns to a schema key it has left
         \* (this is what MC_Stream assumes when it lets the levels only grow)
         /\ LET builders == {<<Ev.sig, recs[i][1]>> : i \in 1..Len(recs)}
